@@ -9,9 +9,9 @@ import (
 	"strings"
 
 	"golang.org/x/tools/go/ssa"
-	"golang.org/x/tools/go/types/typeutil"
 
 	"verif/sa/internal/core"
+	"verif/sa/internal/flow"
 	"verif/sa/internal/tf"
 )
 
@@ -446,7 +446,7 @@ func checkC20(p *core.Program, r *core.Report) {
 		info := u.Pkg.TypesInfo
 		ast.Inspect(u.Node, func(n ast.Node) bool {
 			if c, ok := n.(*ast.CallExpr); ok {
-				if fn, _ := typeutil.Callee(info, c).(*types.Func); fn != nil && (fn.FullName() == "net/http.Handle" || fn.FullName() == "net/http.HandleFunc" || fn.FullName() == "net/http.ListenAndServe") {
+				if fn, _ := flow.Callee(info, c).(*types.Func); fn != nil && (fn.FullName() == "net/http.Handle" || fn.FullName() == "net/http.HandleFunc" || fn.FullName() == "net/http.ListenAndServe") {
 					nDefault++
 					r.Violation("O20.2", u.Name+": "+fn.FullName(), p.Pos(c.Pos()), "registration/serving through net/http's default mux bypasses the instrumented mux")
 				}
